@@ -199,6 +199,27 @@ func builtinIntrinsics() map[string]intrinsic {
 		p.ensureInit(pk)
 		return nil
 	}
+	m["@verifOnQuiescent"] = func(p *Path, fr *frame, pos token.Pos, args []Value) Value {
+		s := p.sch()
+		s.onQuiet = append(s.onQuiet, args[0])
+		return nil
+	}
+	// verifSettle(): run the other goroutines until none of them is runnable (every order explored)
+	m["@verifSettle"] = func(p *Path, fr *frame, pos token.Pos, args []Value) Value {
+		if p.sched == nil {
+			return nil
+		}
+		s := p.sched
+		for {
+			others := s.runnable(s.cur)
+			if len(others) == 0 {
+				return nil
+			}
+			p.switchTo(others[p.choose(len(others))])
+		}
+	}
+	// verifYield(): an explicit scheduling point
+	m["@verifYield"] = func(p *Path, fr *frame, pos token.Pos, args []Value) Value { p.yield(fr); return nil }
 	m["@verifSymbolic"] = func(p *Path, fr *frame, pos token.Pos, args []Value) Value {
 		return p.st.True
 	}
@@ -303,6 +324,24 @@ func builtinIntrinsics() map[string]intrinsic {
 		return p.call(fr, pos, newf, nil)
 	}
 	m["(*sync.Pool).Put"] = nop
+	// math/rand (v1 and v2) top-level functions: arbitrary values
+	for _, pk := range []string{"math/rand", "math/rand/v2"} {
+		for name, w := range map[string]int{"Uint32": 32, "Uint64": 64, "Int63": 63, "Int31": 31, "Int": 63, "Int64": 63, "Int32": 31, "Uint": 64} {
+			w := w
+			m[pk+"."+name] = func(p *Path, fr *frame, pos token.Pos, args []Value) Value {
+				p.eng.noteStub(p.harness, "math/rand: arbitrary values")
+				ww := 64
+				if w <= 32 {
+					ww = 32
+				}
+				v := p.fresh("rand", ww)
+				if w == 63 || w == 31 {
+					p.assume(p.st.Cmp(OpSle, p.st.BV(ww, 0), v))
+				}
+				return v
+			}
+		}
+	}
 	m["runtime.Gosched"] = func(p *Path, fr *frame, pos token.Pos, args []Value) Value { p.yield(fr); return nil }
 	m["runtime.KeepAlive"] = nop
 	m["runtime.GOMAXPROCS"] = func(p *Path, fr *frame, pos token.Pos, args []Value) Value { return p.st.BV(64, 16) }
@@ -394,6 +433,26 @@ func builtinIntrinsics() map[string]intrinsic {
 	m["bytes.IndexByte"] = m["internal/bytealg.IndexByte"]
 	m["strings.IndexByte"] = m["internal/bytealg.IndexByte"]
 	m["internal/stringslite.IndexByte"] = m["internal/bytealg.IndexByte"]
+	// substring search: first position where the needle matches (fork per candidate position)
+	indexSeq := func(p *Path, fr *frame, pos token.Pos, args []Value) Value {
+		hay, nd := p.elemsOf(args[0]), p.elemsOf(args[1])
+		n := len(nd)
+		if n == 0 {
+			return p.st.BV(64, 0)
+		}
+		for i := 0; i+n <= len(hay); i++ {
+			m := p.st.True
+			for k := 0; k < n; k++ {
+				m = p.st.And(m, p.st.Eq(hay[i+k].(*Term), nd[k].(*Term)))
+			}
+			if p.decide(m) {
+				return p.st.BV(64, uint64(i))
+			}
+		}
+		return p.st.BV(64, ^uint64(0))
+	}
+	m["internal/bytealg.Index"] = indexSeq
+	m["internal/bytealg.IndexString"] = indexSeq
 	m["internal/bytealg.Compare"] = func(p *Path, fr *frame, pos token.Pos, args []Value) Value {
 		return p.seqCompare(args[0], args[1])
 	}
@@ -831,7 +890,10 @@ func (p *Path) sprintf(fr *frame, pos token.Pos, format Value, argv Value) *Str 
 		return mkStr("<fmt:symbolic format>")
 	}
 	if allConc {
-		return mkStr(fmt.Sprintf(f, native...))
+		return mkStr(fmt.Sprintf(strings.ReplaceAll(f, "%w", "%v"), native...))
+	}
+	if r := p.sprintfExact(fr, f, argv); r != nil {
+		return r
 	}
 	p.eng.noteStub(p.harness, "fmt.Sprintf/Errorf with symbolic operands: text is opaque (only error-ness and wrapping are modelled)")
 	return mkStr("<fmt@" + p.pos(pos) + ":" + f + ">")
@@ -999,3 +1061,84 @@ func intrErrorsAs(p *Path, fr *frame, pos token.Pos, args []Value) Value {
 }
 
 var _ = ssa.NaiveForm
+
+
+// sprintfExact models the verbs whose text matters to the TL printers exactly: %s (strings), %d (decimal contract),
+// %08x on 32-bit and %016x on 64-bit values (hex digits computed from the nibbles). Anything else: nil (opaque fallback).
+func (p *Path) sprintfExact(fr *frame, f string, argv Value) *Str {
+	elems, _ := argv.([]Value)
+	var out []*Term
+	ai := 0
+	lit := func(s string) {
+		for i := 0; i < len(s); i++ {
+			out = append(out, p.st.BV(8, uint64(s[i])))
+		}
+	}
+	for i := 0; i < len(f); i++ {
+		if f[i] != '%' {
+			out = append(out, p.st.BV(8, uint64(f[i])))
+			continue
+		}
+		j := i + 1
+		for j < len(f) && strings.IndexByte("0123456789", f[j]) >= 0 {
+			j++
+		}
+		if j >= len(f) {
+			return nil
+		}
+		spec, verb := f[i+1:j], f[j]
+		i = j
+		if verb == '%' {
+			out = append(out, p.st.BV(8, '%'))
+			continue
+		}
+		if ai >= len(elems) {
+			return nil
+		}
+		itf := elems[ai].(Iface)
+		ai++
+		switch v := itf.V.(type) {
+		case *Str:
+			if (verb != 's' && verb != 'v') || spec != "" {
+				return nil
+			}
+			out = append(out, p.strBytes(v)...)
+		case *Term:
+			w, signed, isFloat, ok := basicInfo(itf.T)
+			if !ok || isFloat || w == 0 {
+				return nil
+			}
+			if v.Op == OpConst {
+				nv, _ := p.toNative(fr, itf)
+				lit(fmt.Sprintf("%"+spec+string(verb), nv))
+				continue
+			}
+			switch {
+			case (verb == 'd' || verb == 'v') && spec == "":
+				t := v
+				if w < 64 {
+					if signed {
+						t = p.st.SExt(v, 64)
+					} else {
+						t = p.st.ZExt(v, 64)
+					}
+				}
+				for _, d := range p.decimalContract(t, signed) {
+					out = append(out, d.(*Term))
+				}
+			case verb == 'x' && ((spec == "08" && w == 32) || (spec == "016" && w == 64)):
+				n := w / 4
+				for k := n - 1; k >= 0; k-- {
+					nib := p.st.Extract(p.st.Bin(OpLShr, v, p.st.BV(w, uint64(4*k))), 3, 0)
+					nib8 := p.st.ZExt(nib, 8)
+					out = append(out, p.st.Ite(p.st.Cmp(OpUlt, nib8, p.st.BV(8, 10)), p.st.Add(nib8, p.st.BV(8, '0')), p.st.Add(nib8, p.st.BV(8, 'a'-10))))
+				}
+			default:
+				return nil
+			}
+		default:
+			return nil
+		}
+	}
+	return p.strFromTerms(out)
+}
